@@ -11,6 +11,19 @@ from ..astutil import (
 )
 from ..report import Registry, chain, sub
 from ._helpers_rules_b import OrderFlow, arg_for, call_sites, method_call_sites, ordinal_keys
+from ._helpers_rob_e1 import expand, is_attr_chain, once_bound, resolve_name
+
+
+def _x(fn, e):
+    """`e` with the pure aliases of `fn` (`opts = self.execution_options`, once-bound names standing for a name or an
+    attribute chain) replaced by what they stand for.  A copy: use it to classify, not to compare node identity."""
+    node = getattr(fn, "node", fn)
+    if e is None or not isinstance(node, (ast.FunctionDef, ast.AsyncFunctionDef)):
+        return e
+    defs = once_bound(node)
+    if not defs or not any(isinstance(n, ast.Name) and n.id in defs for n in ast.walk(e)):
+        return e
+    return expand(e, defs, pred=is_attr_chain)
 
 R = Registry(
     "C16",
@@ -82,9 +95,10 @@ class MapSource:
         """set of ('exec-options'|'compiled-map'|'param:<name>'|'none'|'empty'|'unknown:<txt>')"""
         if depth > 6:
             return {"unknown:depth"}
-        if _is_exec_option_read(e, merged_only=True):
+        ex = _x(fn, e) if isinstance(e, (ast.Call, ast.Subscript)) else e
+        if _is_exec_option_read(ex, merged_only=True):
             return {"exec-options"}
-        if _is_exec_option_read(e):
+        if _is_exec_option_read(ex):
             return {"single-level-options"}
         if isinstance(e, ast.Constant) and e.value is None:
             return {"none"}
@@ -277,7 +291,13 @@ def _map_gates(ctx, f, node, is_map, what):
     A guard that mentions a map value but is not a recognised predicate of it is an unknown idiom."""
     pm = f.module.parents()
     out = []
+    defs = once_bound(f.node) if isinstance(f.node, (ast.FunctionDef, ast.AsyncFunctionDef)) else {}
     for test, pol in lexical_guards(pm, node, stop=f.node):
+        # a boolean snapshot / alias used as the guard (`has_map = bool(compiled.schema_translate_map); if has_map:`)
+        # stands for its value; names that ARE map values stay as they are
+        keep = {n.id for n in ast.walk(test) if isinstance(n, ast.Name) and is_map(n)}
+        if defs and any(isinstance(n, ast.Name) and n.id in defs and n.id not in keep for n in ast.walk(test)):
+            test = expand(test, defs, keep=keep)
         for atom, apol in _guard_atoms_nodes(test, pol):
             if not any(is_map(x) for x in ast.walk(atom)):
                 continue
@@ -452,15 +472,13 @@ def r3(ctx):
     from_obj = False
     for n in ast.walk(getter):
         if isinstance(n, ast.BinOp) and isinstance(n.op, ast.Mod) and const_str(n.left) in fmts:
-            names = {x.id for x in ast.walk(n.right) if isinstance(x, ast.Name)}
-            srcs = {x for x in names}
-            # names must derive from obj.schema
-            ok_names = set()
-            for nm in srcs:
-                for n2, v2, st2 in name_stores(getter):
-                    if n2 == nm and v2 is not None and dotted(v2) == f"{obj}.schema":
-                        ok_names.add(nm)
-            from_obj = bool(srcs) and srcs <= ok_names
+            # every value formatted into the placeholder is `obj.schema` (directly or through a once-bound local)
+            gdefs = {k: v for k, v in once_bound(getter).items() if dotted(v) == f"{obj}.schema"}
+            right = expand(n.right, gdefs)
+            pmr_ = {c: p_ for p_ in ast.walk(right) for c in ast.iter_child_nodes(p_)}
+            names = [x for x in ast.walk(right) if isinstance(x, ast.Name)]
+            from_obj = bool(names) and all(
+                x.id == obj and isinstance(pmr_.get(x), ast.Attribute) and pmr_[x].attr == "schema" for x in names)
     rets = [x for x in ast.walk(getter) if isinstance(x, ast.Return) and x.value is not None]
     other_rets = [unparse(x.value) for x in rets if not (isinstance(x.value, ast.Call) or dotted(x.value) == f"{obj}.schema")]
     ctx.check(not reads_map and len(fmts) == 1 and from_obj and not other_rets, f"{w.key}:placeholder-from-own-schema",
@@ -510,12 +528,13 @@ def r3(ctx):
               f"alias {alias_w[0]!r} on both sides", r.loc)
     # (d) None-key mismatch raises, both directions
     flag = None
+    wdefs = once_bound(w.node)
     for t, node, st in attr_stores(w.node):
-        if isinstance(st, ast.Assign) and isinstance(st.value, ast.Name):
-            for n2, v2, st2 in name_stores(w.node):
-                if n2 == st.value.id and v2 is not None and any(isinstance(x, ast.Name) and x.id == mp for x in ast.walk(v2)) \
-                        and any(isinstance(x, ast.Constant) and x.value is None for x in ast.walk(v2)):
-                    flag = t.rsplit(".", 1)[-1]
+        if isinstance(st, ast.Assign):
+            v2 = resolve_name(st.value, wdefs)      # `includes_none = None in map; prep.flag = includes_none` or stored directly
+            if isinstance(v2, ast.Compare) and any(isinstance(x, ast.Name) and x.id == mp for x in ast.walk(v2)) \
+                    and any(isinstance(x, ast.Constant) and x.value is None for x in ast.walk(v2)):
+                flag = t.rsplit(".", 1)[-1]
     ctx.require(flag is not None, "_with_schema_translate does not record whether None is a key")
     pmr = r.module.parents()
     mpr = [p for p in r.params if p != "self"][1]
@@ -526,7 +545,12 @@ def r3(ctx):
     for rz in [n for n in walk_local(r.node, into_nested=True) if isinstance(n, ast.Raise)]:
         if not (raised_name(rz) or "").endswith("InvalidRequestError"):
             continue
-        atoms = guard_atoms(lexical_guards(pmr, rz, stop=r.node))
+        guards_ = lexical_guards(pmr, rz, stop=r.node)
+        rdefs = once_bound(r.node)
+        # boolean snapshots used as guards (`none_is_key = None in d`) stand for their value
+        guards_ = [(expand(t, rdefs, keep=aliases) if any(isinstance(x, ast.Name) and x.id in rdefs and x.id not in aliases
+                                                          for x in ast.walk(t)) else t, p_) for t, p_ in guards_]
+        atoms = guard_atoms(guards_)
         if any((f"None in {a}", True) in atoms for a in aliases) and (f"self.{flag}", False) in atoms:
             gained = True
         if any(pol is False and re.fullmatch(r"\w+ in (%s)" % "|".join(map(re.escape, aliases)), txt) for txt, pol in atoms) \
@@ -553,7 +577,7 @@ def _map_names(f, ms: MapSource):
         for n, v, st in name_stores(f.node, into_nested=True):
             if v is None or n in names:
                 continue
-            if _is_exec_option_read(v) or (isinstance(v, ast.Name) and v.id in names) \
+            if _is_exec_option_read(_x(f, v) if isinstance(v, (ast.Call, ast.Subscript)) else v) or (isinstance(v, ast.Name) and v.id in names) \
                     or (isinstance(v, ast.Attribute) and v.attr == OPT):
                 names.add(n)
                 changed = True
@@ -645,7 +669,7 @@ def _opt_read_receiver(e):
 def _map_receivers(of, e, fn, at, depth=0):
     """Where a map expression is read from: set of 'opts:<receiver>' | 'none' | 'other:<text>' (names are
     followed through the bindings that reach `at`)."""
-    r = _opt_read_receiver(e)
+    r = _opt_read_receiver(_x(fn, e) if isinstance(e, (ast.Call, ast.Subscript)) else e)
     if r is not None:
         return {"opts:" + r}
     if isinstance(e, ast.Constant) and e.value is None:
@@ -733,7 +757,9 @@ def r5(ctx):
         ctx.require(opt_pos in (None, pos), f"{ini.key}: options parameter at position {pos}, siblings have it at {opt_pos}")
         opt_pos = pos
         stores = [st for t, node, st in attr_stores(ini.node) if t.endswith(".execution_options") and t.count(".") == 1]
-        good = [st for st in stores if isinstance(st, ast.Assign) and isinstance(st.value, ast.Name) and st.value.id == "execution_options"
+        idefs = once_bound(ini.node)
+        good = [st for st in stores if isinstance(st, ast.Assign) and isinstance(resolve_name(st.value, idefs), ast.Name)
+                and resolve_name(st.value, idefs).id == "execution_options"
                 and not [1 for n2, v2, s2 in name_stores(ini.node) if n2 == "execution_options"]]
         ctx.check(stores and len(good) == len(stores), f"{ini.key}:stores-given-options",
                   f"the context does not keep exactly the options object it was constructed with "
@@ -787,6 +813,7 @@ def r5(ctx):
         bad = []
         for v, st in binds:
             operands = set()
+            v = _x(f, v)      # `conn_opts = self._execution_options; exec_opts = conn_opts.merge_with(execution_options)`
             if isinstance(v, ast.Call) and isinstance(v.func, ast.Attribute) and v.func.attr in ("merge_with", "union"):
                 operands = {dotted(v.func.value)} | {dotted(x) for x in v.args}
             if not ({"self._execution_options", per_exec[0]} <= operands):
@@ -942,3 +969,46 @@ R.mutant("benign-subscript-option", DEF,
              "            schema_translate_map = self.execution_options[\n                \"schema_translate_map\"\n            ]\n\n            rst = self.identifier_preparer"), None)
 R.mutant("benign-render-copies-map-differently", COMP,
          sub("        d = dict(schema_translate_map)\n        if None in d:", "        d = {**schema_translate_map}\n        if None in d:"), None)
+
+# ---- rob-E1: benign families (stored refactors rfE_7..9 are silent; further variants of the same spirit)
+_DDL_RENDER = ("        self.unicode_statement = str(compiled)\n        if compiled.schema_translate_map:\n"
+               "            schema_translate_map = self.execution_options.get(\n                \"schema_translate_map\", {}\n            )\n\n"
+               "            rst = compiled.preparer._render_schema_translates\n")
+R.mutant("benign-e1-ddl-options-alias", DEF,
+         sub(_DDL_RENDER, "        self.unicode_statement = str(compiled)\n        opts = self.execution_options\n        if compiled.schema_translate_map:\n"
+                          "            schema_translate_map = opts.get(\"schema_translate_map\", {})\n\n"
+                          "            rst = compiled.preparer._render_schema_translates\n"), None)
+R.mutant("benign-e1-ddl-gate-boolean-local", DEF,
+         sub(_DDL_RENDER, "        self.unicode_statement = str(compiled)\n        has_translate_map = bool(compiled.schema_translate_map)\n"
+                          "        if has_translate_map:\n"
+                          "            schema_translate_map = self.execution_options.get(\n                \"schema_translate_map\", {}\n            )\n\n"
+                          "            rst = compiled.preparer._render_schema_translates\n"), None)
+R.mutant("ddl-options-alias-of-connection-options", DEF,
+         sub(_DDL_RENDER, "        self.unicode_statement = str(compiled)\n        opts = connection._execution_options\n        if compiled.schema_translate_map:\n"
+                          "            schema_translate_map = opts.get(\"schema_translate_map\", {})\n\n"
+                          "            rst = compiled.preparer._render_schema_translates\n"), "C16-R1")
+R.mutant("benign-e1-ddl-context-stores-options-through-local", DEF,
+         sub("        self.execution_options = execution_options\n\n        self.unicode_statement = str(compiled)\n        if compiled.schema_translate_map:",
+             "        given_options = execution_options\n        self.execution_options = given_options\n\n        self.unicode_statement = str(compiled)\n        if compiled.schema_translate_map:"), None)
+_DDL_MERGE = ("        exec_opts = ddl._execution_options.merge_with(\n            self._execution_options, execution_options\n        )")
+R.mutant("benign-e1-ddl-merge-operands-through-aliases", "engine/base.py",
+         sub(_DDL_MERGE, "        connection_options = self._execution_options\n        exec_opts = ddl._execution_options.merge_with(\n"
+                         "            connection_options, execution_options\n        )"), None)
+R.mutant("benign-e1-ddl-map-read-through-options-alias", "engine/base.py",
+         sub("        schema_translate_map = exec_opts.get(\"schema_translate_map\", None)\n\n        dialect = self.dialect\n\n        compiled = ddl.compile(",
+             "        merged = exec_opts\n        schema_translate_map = merged.get(\"schema_translate_map\", None)\n\n        dialect = self.dialect\n\n        compiled = ddl.compile("), None)
+R.mutant("benign-e1-none-flag-stored-directly", COMP,
+         chain(sub("        includes_none = None in schema_translate_map\n\n        def symbol_getter(obj):",
+                   "        prep._includes_none_schema_translate = None in schema_translate_map\n\n        def symbol_getter(obj):"),
+               sub("            if obj._use_schema_map and (name is not None or includes_none):",
+                   "            if obj._use_schema_map and (\n                name is not None or prep._includes_none_schema_translate\n            ):"),
+               sub("        prep.schema_for_object = symbol_getter\n        prep._includes_none_schema_translate = includes_none\n",
+                   "        prep.schema_for_object = symbol_getter\n")), None)
+R.mutant("benign-e1-placeholder-from-attribute", COMP,
+         sub("                    \"__[SCHEMA_%s]\" % (name or \"_none\"), quote=False", "                    \"__[SCHEMA_%s]\" % (obj.schema or \"_none\"), quote=False"), None)
+R.mutant("placeholder-from-other-attribute", COMP,
+         sub("                    \"__[SCHEMA_%s]\" % (name or \"_none\"), quote=False", "                    \"__[SCHEMA_%s]\" % (obj.name or \"_none\"), quote=False"), "C16-R3")
+R.mutant("benign-e1-render-none-check-boolean-local", COMP,
+         sub("        d = dict(schema_translate_map)\n        if None in d:\n            if not self._includes_none_schema_translate:\n",
+             "        d = dict(schema_translate_map)\n        none_is_key = None in d\n        compiled_with_none = self._includes_none_schema_translate\n"
+             "        if none_is_key:\n            if not compiled_with_none:\n"), None)
